@@ -228,7 +228,10 @@ func (cs *clientState) unblock(reason string, isError bool) (wasBlocked bool) {
 		if locked == CS_UNCAPTURED {
 			verifPoint("unblock-dropped", cs.id, 0)
 		}
-		atomic.SwapInt32(&cs.blocked, locked)
+		if locked != CS_CHECKING {
+			// (when another goroutine is checking, the state is its to restore, not ours)
+			atomic.SwapInt32(&cs.blocked, locked)
+		}
 
 		if locked == CS_UNCAPTURED || locked == CS_CAPTURED {
 			return
@@ -255,7 +258,10 @@ func (cs *clientState) isBlocked() bool {
 		if locked == CS_CAPTURED {
 			blocked = true
 		}
-		atomic.SwapInt32(&cs.blocked, locked)
+		if locked != CS_CHECKING {
+			// (when another goroutine is checking, the state is its to restore, not ours)
+			atomic.SwapInt32(&cs.blocked, locked)
+		}
 
 		if locked == CS_UNCAPTURED || locked == CS_CAPTURED {
 			return blocked
